@@ -302,7 +302,7 @@ def classify(ex, gpc, st, W, attrs, h_loc, h_heap, cont, hsyms, tracked, typed_v
     for a in attrs:
         finals = [r.state.heap.get(a) for r in cont]
         if all(f is not None and z3.eq(f, h_heap[a]) for f in finals):
-            cls_heap[a] = ("same", [])
+            cls_heap[a] = ("same", [], None)
             continue
         kept = []
         for tr in tracked:
@@ -319,7 +319,31 @@ def classify(ex, gpc, st, W, attrs, h_loc, h_heap, cont, hsyms, tracked, typed_v
                     break
             if good:
                 kept.append(tr)
-        cls_heap[a] = ("havoc", kept)
+        # reset-only step: every continue path leaves each entry as it was or sets it to the reset value (None / 0);
+        # by induction over the iterations every entry of the pre-state of any iteration is the initial one or reset
+        rv_ok = None
+        try:
+            is_v = h_heap[a].sort().range() == V
+        except Exception:
+            is_v = False
+        if is_v and finals and all(f is not None for f in finals):
+            for rv in (V.NONE, V.INT(z3.IntVal(0))):
+                xq = z3.Int("rstx")
+                good = True
+                for r, f in zip(cont, finals):
+                    sv = z3.Solver()
+                    sv.set("timeout", 3000)
+                    if gpc:
+                        sv.add(*gpc)
+                    sv.add(*r.pc)
+                    sv.add(z3.Select(f, xq) != z3.Select(h_heap[a], xq), z3.Select(f, xq) != rv)
+                    if sv.check() != z3.unsat:
+                        good = False
+                        break
+                if good:
+                    rv_ok = rv
+                    break
+        cls_heap[a] = ("havoc", kept, rv_ok)
     return cls_loc, cls_heap
 
 
@@ -456,7 +480,7 @@ def compute_loop_summary(ex, gpc, st, s, view, stats, branch_timeout_ms):
                 else:
                     f2.vars[v] = mk_any(simp(z3.If(jj == 0, box(init), hv)))
         for a in attrs:
-            kind, kept = cls_heap[a]
+            kind, kept, rv_ok = cls_heap[a]
             if kind == "same":
                 st2.heap[a] = heap0[a]
             else:
@@ -469,6 +493,10 @@ def compute_loop_summary(ex, gpc, st, s, view, stats, branch_timeout_ms):
                 st2.heap[a] = simp(arr)
                 for tr in kept:
                     c2.assume(z3.Select(hv, tr) == z3.Select(heap0[a], tr))
+                if rv_ok is not None:
+                    xq = z3.Int(f"rstq!{uid}")
+                    c2.assume(z3.ForAll([xq], z3.Or(z3.Select(hv, xq) == z3.Select(heap0[a], xq),
+                                                    z3.Select(hv, xq) == rv_ok)))
         if inv is not None:
             c2.assume(eval_inv(c2, st2, jj))
 
@@ -853,7 +881,7 @@ def exec_while(ex, ctx, st, s):
                 else:
                     f2.vars[v] = mk_any(simp(z3.If(j == 0, box(init), hv)))
         for a in attrs:
-            kind, kept = cls_heap[a]
+            kind, kept = cls_heap[a][:2]
             if kind == "same":
                 st2.heap[a] = heap0[a]
             else:
